@@ -474,13 +474,14 @@ class C03:
                     bad = ("forward line is changed", o, definite[0][2])
                 if o["first"] > o["last"] and not is_rev:
                     bad = ("backward line is not reversed", o, definite[0][2])
-                if o["first"] == o["last"] and not (is_id or is_rev):
-                    bad = ("unrecognised result", o, definite[0][2])
+                if o["first"] == o["last"] and not is_id:
+                    bad = ("a line whose first and last times are equal is reversed: the normaliser is not idempotent, so re-validating "
+                           "the JSON dump of an accepted geometry yields a different (reversed) geometry", o, definite[0][2])
             if bad:
                 ctx.bad("R03.3", FILE, f"{c.name}.{v.name}", "return v[::-1] if first time > last time else v",
                         f"line string normal form broken: {bad[0]} (first/last time ranks {bad[1]})", bad[2].lineno, witness=bad[1])
             else:
-                ctx.ok("R03.3", f"{FILE}:{v.node.lineno} {c.name}.{v.name}", "reversed iff first time > last time")
+                ctx.ok("R03.3", f"{FILE}:{v.node.lineno} {c.name}.{v.name}", "reversed iff first time > last time; unchanged otherwise (idempotent)")
         else:
             if normalisers:
                 v, s, vp = normalisers[0]
